@@ -359,7 +359,10 @@ func lifeRun(e *Env) {
 			cy.userBurst = []int{0, 0, 0, 5, 80}[g.Intn(5)]
 		} else {
 			cy.inBacklog = []int{0, 0, 1, 5, 20}[g.Intn(5)]
-			cy.outBurst = []int{0, 0, 1, 5, 20}[g.Intn(5)]
+			// (the larger bursts fill the output queue: the foreground handler, and
+			// with it the event loop, is then blocked in a send when the cause
+			// arrives, with flood protection on in the middle of a flood delay)
+			cy.outBurst = []int{0, 0, 1, 5, 20, 40, 70, 150}[g.Intn(8)]
 		}
 		cy.inSegments = g.Range(1, 4)
 		if g.Pct(30) {
